@@ -159,7 +159,8 @@ def r3_dispatch(ctx):
         ifs = [n for n in tr[0].body if isinstance(n, ast.If)]
         if len(ifs) == 1 and ast.unparse(ifs[0].test) == 'self.path_request.blocking_reason in BLOCKING_NOPATH':
             def resp(stmts):
-                d = next((s.value for s in stmts if isinstance(s, ast.Assign) and isinstance(s.value, ast.Dict)), None)
+                # canonical form: `return {...}` (a temporary that is only returned has been inlined)
+                d = next((s.value for s in stmts if isinstance(s, (ast.Assign, ast.Return)) and isinstance(s.value, ast.Dict)), None)
                 return ast.unparse(d).replace(' ', '').replace('\n', '') if d is not None else ''
             a, b, c = resp(ifs[0].body), resp(ifs[0].orelse), resp(tr[0].handlers[0].body)
             det = f'{a} | {b} | {c}'
